@@ -518,21 +518,24 @@ func (f *fragmentCycleVisitor) LeaveDocument(operation, _ *ast.Document) {
 		return
 	}
 
-	visited := make(map[string]bool)
-	stack := make(map[string]bool)
+	// keyed by fragment definition ref: two definitions may (invalidly) share one name
+	visited := make(map[int]bool)
+	stack := make(map[int]bool)
 
-	for fragmentIdx := range f.spreadsInFragments {
+	for fragmentIdx := range operation.FragmentDefinitions {
+		if _, hasSpreads := f.spreadsInFragments[fragmentIdx]; !hasSpreads {
+			continue
+		}
 		f.detectFragmentCycle(fragmentIdx, []int{fragmentIdx}, visited, stack, operation)
 	}
 }
 
-func (f *fragmentCycleVisitor) detectFragmentCycle(fragmentIdx int, path []int, visited, stack map[string]bool, operation *ast.Document) bool {
-	fragName := string(operation.FragmentDefinitionNameBytes(fragmentIdx))
-	if stack[fragName] {
+func (f *fragmentCycleVisitor) detectFragmentCycle(fragmentIdx int, path []int, visited, stack map[int]bool, operation *ast.Document) bool {
+	if stack[fragmentIdx] {
 		// Cycle detected, report using the spread that closes the cycle
 		cycleStart := 0
 		for i, idx := range path {
-			if string(operation.FragmentDefinitionNameBytes(idx)) == fragName {
+			if idx == fragmentIdx {
 				cycleStart = i
 				break
 			}
@@ -546,11 +549,11 @@ func (f *fragmentCycleVisitor) detectFragmentCycle(fragmentIdx int, path []int, 
 		}
 		return true
 	}
-	if visited[fragName] {
+	if visited[fragmentIdx] {
 		return false
 	}
-	visited[fragName] = true
-	stack[fragName] = true
+	visited[fragmentIdx] = true
+	stack[fragmentIdx] = true
 	for _, spreadRef := range f.spreadsInFragments[fragmentIdx] {
 		// Find the fragment definition index for this spread name
 		fragName := operation.FragmentSpreadNameBytes(spreadRef)
@@ -559,7 +562,7 @@ func (f *fragmentCycleVisitor) detectFragmentCycle(fragmentIdx int, path []int, 
 			return true
 		}
 	}
-	stack[fragName] = false
+	stack[fragmentIdx] = false
 	return false
 }
 
